@@ -80,14 +80,45 @@ type Prog struct {
 	FuncStructs []StructDef `json:"func_structs,omitempty"`
 	Globals     []Global    `json:"globals,omitempty"`
 	Inits       [][]*Node   `json:"inits,omitempty"`
-	Funcs       []Func      `json:"funcs"`
-	Calls       []Call      `json:"calls"`
-	Feat        []string    `json:"feat,omitempty"` // constructs the generator used (class labels)
+	// HasDeploy: the program declares func _deploy(data any, isUpdate bool) with the body Deploy (the method the
+	// ContractManagement native contract calls after _initialize when a contract is deployed or updated); DeployLast
+	// prints it after all other functions instead of after the init() functions.
+	HasDeploy  bool    `json:"has_deploy,omitempty"`
+	DeployLast bool    `json:"deploy_last,omitempty"`
+	Deploy     []*Node `json:"deploy,omitempty"`
+	Funcs      []Func  `json:"funcs"`
+	// Lib: exported functions of a second package of the module (<pkg>lib) which the program imports under the name lib.
+	Lib   []Func   `json:"lib,omitempty"`
+	Calls []Call   `json:"calls"`
+	Feat  []string `json:"feat,omitempty"` // constructs the generator used (class labels)
 }
 
 // Case is a batch of programs built by one invocation of the Go toolchain.
 type Case struct {
 	Progs []Prog `json:"progs"`
+}
+
+// deployName is the function the compiler turns into the _deploy method of the contract; deployParams is the only
+// signature it accepts for it.
+const deployName = "_deploy"
+
+var deployParams = []Field{{"data", "any"}, {"isUpdate", "bool"}}
+
+// libAlias is the name the program imports its second package under; libPath is the import path of that package for
+// the program rendered as package pkg (a directory next to it in the module of the case).
+const libAlias = "lib"
+
+func libPath(pkg string) string { return "c14mod/" + pkg + "lib" }
+
+// LibSource renders the imported package.
+func (pr *Prog) LibSource(pkg string) string {
+	p := &printer{}
+	p.line("package %slib", pkg)
+	p.line("")
+	for i := range pr.Lib {
+		p.fn(&pr.Lib[i])
+	}
+	return p.sb.String()
 }
 
 // ---- printer ---------------------------------------------------------------------------------------
@@ -565,6 +596,10 @@ func (pr *Prog) Source(pkg string) string {
 	p := &printer{}
 	p.line("package %s", pkg)
 	p.line("")
+	if len(pr.Lib) > 0 {
+		p.line("import %s %q", libAlias, libPath(pkg))
+		p.line("")
+	}
 	for _, s := range pr.Structs {
 		p.line("type %s struct {", s.Name)
 		p.ind++
@@ -611,10 +646,22 @@ func (pr *Prog) Source(pkg string) string {
 		p.line("}")
 		p.line("")
 	}
+	deploy := func() {
+		p.line("func %s(%s) {", deployName, fieldList(deployParams))
+		p.block(pr.Deploy)
+		p.line("}")
+		p.line("")
+	}
+	if pr.HasDeploy && !pr.DeployLast {
+		deploy()
+	}
 	for i := range pr.Funcs {
 		if !pr.Funcs[i].AsVar {
 			p.fn(&pr.Funcs[i])
 		}
+	}
+	if pr.HasDeploy && pr.DeployLast {
+		deploy()
 	}
 	return p.sb.String()
 }
